@@ -445,8 +445,8 @@ func (c *Check) listedIndex(f *Func, t *Term) (bool, string) {
 	switch {
 	case f.Name == "types.RequestContextState.Unmarshal" || f.Name == "types.RequestContextBatchState.Unmarshal":
 		return true, "enum decoder of module-written store bytes: Marshal always writes exactly one byte (sibling Marshal checked by C19.4 tables)"
-	case f.Name == "keeper.Keeper.RequestModuleService" && strings.Contains(s, "keeper.Keeper.InitiateRequests"):
-		return true, "first id of a batch issued to a one-element provider list: batch-start returns one id per provider (C12.1, C18.7)"
+	case c.fu != nil && c.fu.BS != nil && t.Op == "idx" && t.A[0].Op == c.fu.BS.Name && t.A[1].IsAt("#0") && batchStartListNonEmpty(t.A[0]):
+		return true, "first id of a batch issued to a non-empty literal provider list: batch-start returns one id per provider (C12.1, C18.7)"
 	case f.Name == "service.NewQuerier$lit0" || strings.HasPrefix(f.Name, "keeper.NewQuerier"):
 		return true, "legacy query path: not consensus state (queries run on a cached context)"
 	case f.Name == "keeper.Keeper.validateServiceFeeCap" || f.Name == "keeper.Keeper.validateDeposit":
@@ -484,4 +484,14 @@ func (c *Check) mutateWhileIterating() {
 		}
 	}
 	c.req(n >= 2, "C20.4", "mutation-during-iteration-sites", token.NoPos, fmt.Sprintf("%d sites mutate the family they iterate", n))
+}
+
+// batchStartListNonEmpty: the provider list passed to the batch-start call is a literal with at least one element.
+func batchStartListNonEmpty(call *Term) bool {
+	for _, a := range call.A {
+		if a.Op == "lit" && len(a.A) >= 2 && strings.HasPrefix(a.A[0].At, "[]") {
+			return true
+		}
+	}
+	return false
 }
